@@ -8,10 +8,29 @@ PROP = re.compile(r'(Result(::)?<.*>::(ok|err|map|map_err|and_then|or_else|as_re
                   r'|Option(::)?<.*>::(map|map_or|map_or_else|and_then|or_else|unwrap_or.*|is_some|is_none|ok_or.*|transpose)$|Try>?::branch$|FromResidual|IntoIterator)')
 
 
-def classify(b, bi, t):
+def classify(b, bi, t, depth=1):
     """how the Result produced by call t at block bi is consumed: set of sink kinds
-    {'try','ret','discr','switch','unwrap','call:<callee>'}; empty set = dropped."""
-    d = t['d'][0]
+    {'try','ret','discr','switch','unwrap','call:<callee>'}; empty set = dropped.
+    A Result handed to a crate helper that takes it as a parameter (`self.step(result)`) is consumed the way the helper consumes
+    that parameter."""
+    sinks = classify_local(b, t['d'][0], bi)
+    if t['d'][0] == 0:
+        sinks.add('ret')
+    if depth > 0:
+        F = b.facts
+        for s_ in list(sinks):
+            if s_.startswith('call:') and s_[5:] in F.bodies:
+                hb = F.bodies[s_[5:]]
+                # which parameter of the helper received the value: any parameter of Result type
+                for l in range(1, hb.argc + 1):
+                    if RES.match(str(hb.locals[l])) or re.match(r'^std::result::Result<', str(hb.locals[l])):
+                        inner = classify_local(hb, l, None)
+                        if ('call:db::DbInner::store_err' in inner) or ('ret' in inner) or ('try' in inner):
+                            sinks |= set(x for x in inner if x.startswith('call:db::DbInner::store_err') or x in ('ret', 'try'))
+    return sinks
+
+
+def classify_local(b, d, bi):
     taint = {d}
     sinks = set()
     changed = True
@@ -55,8 +74,6 @@ def classify(b, bi, t):
                         sinks.add('call:' + nm)
             if tm['k'] == 'switch' and op_place(tm['a']) and op_place(tm['a'])[0] in taint:
                 sinks.add('switch')
-    if t['d'][0] == 0:
-        sinks.add('ret')
     return sinks
 
 
